@@ -37,10 +37,17 @@ def make_form(name, dim):
         return V
     if name == 'l2':
         return vform.L2functional_vf(dim, physical=True)
+    if name == 'l2dx':
+        # a second functional with the same input names as 'l2'
+        V = vform.VForm(dim, arity=1)
+        v = V.basisfuns()
+        f = V.input('f', shape=(), physical=True)
+        V.add(f * (v.dx(0) + 0.5 * v) * vform.dx)
+        return V
     raise AssertionError(name)
 
 
-ALLFORMS = ('mass', 'stiffness', 'conv', 'conv2', 'l2')
+ALLFORMS = ('mass', 'stiffness', 'conv', 'conv2', 'l2', 'l2dx')
 
 
 def make_geo(kind, dim):
@@ -177,28 +184,33 @@ class State:
         T = hs.thb_to_hb()
         kv_f = hs.knotvectors(L - 1)
         self.ncheck += 1
-        if name == 'l2':
-            b_f = assemble.assemble(make_form('l2', dim), kv_f, geo=geo, f=f).ravel()
-            via = q.weighted([('hdiscr', 2), ('assemble', 1)])
+        if name in ('l2', 'l2dx'):
+            b_f = assemble.assemble(make_form(name, dim), kv_f, geo=geo, f=f).ravel()
+            via = q.weighted([('hdiscr', 3), ('assemble', 1)])
             if via == 'hdiscr':
-                hd = self.hd.get('l2')
+                # ONE HDiscretization object serves every functional along the history
+                hd = self.hd.get('functionals')
                 if hd is None:
-                    hd = self.hd['l2'] = hierarchical.HDiscretization(hs, make_form('mass', dim), dict(args))
+                    hd = self.hd['functionals'] = hierarchical.HDiscretization(hs, make_form('mass', dim), dict(args))
                     hd._vsim_truncate = bool(hs.truncate)
-                which = q.pick(['assemble_rhs', 'assemble_functional'])
+                else:
+                    ctx.count('probe.hdiscretization.reused.for.functional')
+                which = q.pick(['assemble_rhs', 'assemble_functional']) if name == 'l2' else q.pick(['assemble_rhs(vf)', 'assemble_functional'])
                 if which == 'assemble_rhs':
                     b = ctx.call('HDiscretization.assemble_rhs', hd.assemble_rhs)
+                elif which == 'assemble_rhs(vf)':
+                    b = ctx.call('HDiscretization.assemble_rhs', hd.assemble_rhs, make_form(name, dim))
                 else:
-                    b = ctx.call('HDiscretization.assemble_functional', hd.assemble_functional, make_form('l2', dim))
+                    b = ctx.call('HDiscretization.assemble_functional', hd.assemble_functional, make_form(name, dim))
                 trunc = hd._vsim_truncate
             else:
-                b = ctx.call('assemble(functional, hspace)', assemble.assemble, make_form('l2', dim), hs, **dict(args))
+                b = ctx.call('assemble(functional, hspace)', assemble.assemble, make_form(name, dim), hs, **dict(args))
                 trunc = bool(hs.truncate)
             if b is RAISED():
                 return False
             want = IM.T @ b_f
             if curved:
-                want = levelwise_reference_vec(m, [assemble.assemble(make_form('l2', dim), hs.knotvectors(k), geo=geo, f=f).ravel()
+                want = levelwise_reference_vec(m, [assemble.assemble(make_form(name, dim), hs.knotvectors(k), geo=geo, f=f).ravel()
                                                    for k in range(L)])
                 ctx.count('oracle.levelwise-quadrature')
             if trunc:
@@ -206,7 +218,7 @@ class State:
             b = np.asarray(b, float).ravel()
             sc = max(1e-300, np.abs(want).max())
             ctx.check(b.shape == want.shape and np.abs(b - want).max() <= 1e-10 * sc, 'functional-galerkin',
-                      lambda: '%s via %s, truncate=%s, %d levels, geo %s: differs from I^T b_fine by %.3g (scale %.3g), history %s'
+                      lambda: '%s via %s, truncate=%s, %d levels, geo %s: differs from the reference by %.3g (scale %.3g), history %s'
                       % (name, via, trunc, L, self.geo_kind, np.abs(b - want).max() if b.shape == want.shape else -1, sc, w.history),
                       dict(sig, truncate=trunc))
             return True
